@@ -1,9 +1,39 @@
-(* C01 placeholder until DecodeProofs lands *)
+(* C01 — every libwayland debug line decodes to exactly the message it denotes. *)
 From WD Require Import Base Wire Decode Render.
-Example C01_ex : message (render (mkDialect true true true true false)
-   (mkWmsg 1234567 (Some (s2l "Default Queue")) (Some (s2l "c0")) true (s2l "wl_surface") 3 (s2l "attach")
-           [WObj (s2l "wl_buffer") 7; WFixed (-384); WStr (s2l "a, b) [x]"); WNew None 9; WArray 8; WNil; WFd 5]))
-  = Ok (denote (mkDialect true true true true false)
-   (mkWmsg 1234567 (Some (s2l "Default Queue")) (Some (s2l "c0")) true (s2l "wl_surface") 3 (s2l "attach")
-           [WObj (s2l "wl_buffer") 7; WFixed (-384); WStr (s2l "a, b) [x]"); WNew None 9; WArray 8; WNil; WFd 5])).
-Proof. vm_compute. reflexivity. Qed.
+From WD Require Import DecodeProofs DecodeArgs DecodeSplit DecodeHeader DecodeRoundTrip.
+Open Scope Z_scope.
+
+(* every line libwayland's printer can emit for a message in the domain of C01 (both object
+   syntaxes, both fixed-point renderings, array / array[N], both time-stamp formats and decimal
+   marks - the dialect switches are independent -, with or without queue and connection tags,
+   0..any number of arguments of every kind in every position, 32-bit integers, every 24.8 value,
+   strings without double quote and backslash) is decoded into exactly the message it denotes *)
+Theorem C01_decode_render : forall d m, wf_wmsg m = true -> message (render d m) = Ok (denote d m).
+Proof. exact decode_render. Qed.
+Print Assumptions C01_decode_render.
+
+(* string arguments containing commas, brackets, parentheses or spaces never split or merge
+   neighbouring arguments *)
+Theorem C01_args_split_exact : forall d args, forallb wf_warg args = true ->
+  split_args (intercalate (s2l ", ") (map (render_arg d) args)) = map (render_arg d) args.
+Proof. exact split_render. Qed.
+Print Assumptions C01_args_split_exact.
+
+(* each argument kind is recognised as that kind (alternation order of the argument pattern) *)
+Theorem C01_argument_kinds : forall d a, wf_warg a = true -> argument (render_arg d a) = Ok (denote_arg d a).
+Proof. exact argument_render. Qed.
+Print Assumptions C01_argument_kinds.
+
+(* a line without `[` is never reported as a message *)
+Theorem C01_no_bracket_no_message : forall out s pos,
+  forallb (fun c => negb (N.eqb c 91)) s = true -> search out s pos = None.
+Proof. exact no_bracket_no_message. Qed.
+Print Assumptions C01_no_bracket_no_message.
+
+Example C01_ex :
+  let m := mkWmsg 1234567 (Some (s2l "Default Queue")) (Some (s2l "c0")) true (s2l "wl_surface") 3 (s2l "attach")
+           [WObj (s2l "wl_buffer") 7; WFixed (-384); WStr (s2l "a, b) [x] } wl_a#1.f("); WNew None 9; WArray 8; WNil; WFd 5] in
+  wf_wmsg m = true /\
+  message (render (mkDialect true true true true false) m) = Ok (denote (mkDialect true true true true false) m) /\
+  message (render (mkDialect false false false false true) m) = Ok (denote (mkDialect false false false false true) m).
+Proof. vm_compute. repeat split. Qed.
